@@ -354,7 +354,16 @@ func (ex *Exec) mapStore(st *State, m *mapLV, v Value) {
 	ex.storeLV(st, m.Base, &MapV{Val: ex.ts.Store(mv.Val, m.Key.(*Term), v.(*Term)), T: mv.T})
 }
 
-func (ex *Exec) mapDelete(st *State, e *ast.CallExpr) { unsupported("delete on maps is not modelled") }
+// mapDelete: in the total-function model a deleted key reads as the zero value again.
+func (ex *Exec) mapDelete(st *State, e *ast.CallExpr) {
+	lv := ex.lvalue(e.Args[0], st)
+	mv, ok := ex.loadLV(st, lv, e.Pos()).(*MapV)
+	if !ok || mv.Nil {
+		return
+	}
+	k := ex.eval(e.Args[1], st).(*Term)
+	ex.storeLV(st, lv, &MapV{Val: ex.ts.Store(mv.Val, k, ex.zeroTerm(mv.Val.Sort.Elem)), T: mv.T})
+}
 
 func (ex *Exec) mergeMaps(c *Term, x, y *MapV) Value {
 	if x.Nil || y.Nil {
